@@ -1,6 +1,6 @@
 (** Correspondence check for C13 (redirect routes). *)
 From Coq Require Import String List NArith ZArith Bool.
-From Fabio Require Import Lib.Outcome Lib.Bytes Lib.Verdict Model.Redirect Model.RedirectSpec Model.RedirectTag Model.RedirectProto.
+From Fabio Require Import Lib.Outcome Lib.Bytes Lib.Verdict Model.Redirect Model.RedirectSpec Model.RedirectTag Model.RedirectProto Model.RedirectNoGlob.
 Import ListNotations.
 Local Open Scope N_scope.
 
@@ -70,7 +70,14 @@ Inductive case :=
    connection, through HTTPProxy.ServeHTTP over the real Table.Lookup (request parsed by
    net/http from the wire text, or sent over a real plain / TLS socket) *)
 | CServeP (hs : headers) (cands : list (option target)) (host wire path rawpath query : str) (tls : bool)
-          (impl : response) (hits : nat).
+          (impl : response) (hits : nat)
+(* round 8: one request through HTTPProxy.ServeHTTP over the real Table.Lookup called with
+   globDisabled = true.  [tv]: EVERY host key of the real table (order of
+   sortHostsReverseHostPort) with what Table.lookup yields for it and the request's path;
+   [fb]: the same for the host-less routes.  Which hosts are visited is computed by the model
+   ([matching_noglob]) and, for the judgement, by the specification's decision [same_hostb]. *)
+| CServeNG (tv : list (str * option target)) (fb : option target) (wire : str) (q : request)
+           (impl : response) (hits : nat).
 
 Fixpoint list_all2 {A B} (f : A -> B -> bool) (a : list A) (b : list B) : bool :=
   match a, b with
@@ -227,4 +234,15 @@ Definition check_case (c : case) : N :=
       let spec := kind && ok && Nat.eqb hits (match impl with RProxy _ => 1 | _ => 0 end) in
       let said := match said_x hs, said_f hs with XNone, FNone => false | _, _ => true end in
       verdict same spec region (said && Nat.ltb 1 (length (somes cands)))
+  | CServeNG tv fb wire q impl hits =>
+      let m := handle_noglob q tv fb in
+      let same := response_eqb impl m && Nat.eqb hits (upstream_calls m)
+                  && opt_pair_eqb (set_path wire) (Some (q_path q, q_rawpath q)) in
+      (* judged over the routes of the hosts that ARE the request's host in the specification's
+         reading ([cands_saidb], C13_noglob_decision_spec) followed by the host-less routes *)
+      let scands := cands_saidb q tv fb in
+      let '(rs, region) := response_spec q wire scands impl in
+      let spec := rs && Nat.eqb hits (match impl with RProxy _ => 1 | _ => 0 end) in
+      let nontriv := match m with RRedirect _ _ => true | _ => Nat.ltb 1 (length scands) end in
+      verdict same spec region nontriv
   end.
